@@ -15,6 +15,7 @@ def replay(args, outdir):
     if lemma == 'L1_layout':
         name = H.FIXED[a['si']]
         recs = H._recs(a['mate'], a['seq'], a['nm'])
+        parser.min_len = sum(n for (_, _, n) in S.LAYOUTS[name]['bc'])
     else:
         name, recs = H.content_case(a)
     if lemma != 'L1_layout':
@@ -22,7 +23,7 @@ def replay(args, outdir):
     try:
         clause = S.layout_clause(strats[name], recs, BDM.fastqHeaderSafeQualitiesToPhred)
     except BDM.NonMultiplexable:
-        clause = None if lemma != 'L1_layout' else 'raises.NonMultiplexable'
+        clause = None      # a rejected pair is outside C02
     except Exception as e:
         clause = 'raises.' + type(e).__name__
     if clause is None:
